@@ -89,6 +89,13 @@ def sec_families(ctx, rng, case):
     ctx.sample({"family": spec.name, "params": _pkey(p), "gate": repr(gate)[:120]})
 
 
+def _scribble(cirq, gate):
+    arrs = [cirq.unitary(gate, None)] + list(cirq.kraus(gate, ())) + [m for _, m in (cirq.mixture(gate, None) or ()) if isinstance(m, np.ndarray)]
+    for a in arrs:
+        if isinstance(a, np.ndarray) and a.flags.writeable:
+            a[...] = 7.0
+
+
 def _query_battery(cirq, gate, spec, rng):
     """a few of the library's read-only questions about one gate object (their answers are other properties' business)"""
     other = spec.make(spec.sample(rng))
@@ -112,6 +119,8 @@ def _query_battery(cirq, gate, spec, rng):
         ("resolve", lambda: cirq.resolve_parameters(gate, {"a": 1.0})),
     ]
     picked = [queries[int(i)] for i in rng.choice(len(queries), size=int(rng.integers(3, 9)), replace=False)]
+    # what the protocols hand out belongs to the caller: overwriting it must not reach the gate
+    picked.append(("overwrite the arrays returned by unitary/kraus/mixture", lambda: _scribble(cirq, gate)))
     names = []
     for name, fn in picked:
         try:
